@@ -11,6 +11,8 @@ import (
 	"strconv"
 )
 
+var workerRange string
+
 func main() {
 	if len(os.Args) < 2 {
 		fmt.Fprintln(os.Stderr, "usage: corr <component> -out dir [-seed n] [-tier quick|thorough]")
@@ -23,6 +25,7 @@ func main() {
 	tier := fs.String("tier", "quick", "quick|thorough")
 	only := fs.String("only", "", "component-specific filter")
 	replay := fs.String("replay", "", "replay file")
+	fs.StringVar(&workerRange, "worker", "", "internal: run scenarios from:to and stream results")
 	fs.Parse(os.Args[2:])
 	seed, err := strconv.ParseUint(*seedS, 10, 64)
 	if err != nil {
